@@ -705,11 +705,13 @@ func (le *LockEngine) CheckGuardedBy(fns []*ssa.Function, T *types.Named, field,
 		return nil, fmt.Errorf("%s is not a struct", T)
 	}
 	fi, gi := -1, -1
+	tshort := lastSeg(typeString(T))
 	for i := 0; i < st.NumFields(); i++ {
-		if st.Field(i).Name() == field {
+		n := st.Field(i).Name()
+		if n == field || refFieldName(tshort, n) == field {
 			fi = i
 		}
-		if st.Field(i).Name() == guard {
+		if n == guard || refFieldName(tshort, n) == guard {
 			gi = i
 		}
 	}
